@@ -234,9 +234,11 @@ Fixpoint modify_go (P : mparams) (seq : list item) (memo : list (nat * tree)) : 
 Definition has_params (P : mparams) : bool :=
   match mT1 P, mT2 P, mg P, matt P with None, None, None, None => false | _, _, _, _ => true end.
 
-(* modify(sequence, **params) with the default modifier: list of (Multi)operators *)
-Definition modify_model (l : list tree) (P : mparams) : list tree :=
-  if has_params P then modify_go P (flat_seq l) [] else l.
+(* modify(sequence, **params) with the default modifier: list of (Multi)operators.
+   [kw]: some keyword was passed (possibly with value None); without any keyword the
+   sequence itself is returned *)
+Definition modify_model (l : list tree) (P : mparams) (kw : bool) : list tree :=
+  if kw then modify_go P (flat_seq l) [] else l.
 
 (* specification: after every item of positive duration, an evolution of that duration
    (own duration 0); flip angles of T scaled by att *)
@@ -323,11 +325,18 @@ Fixpoint index_of (n : nat) (l : list nat) : nat :=
   match l with [] => 0%nat | m :: r => if Nat.eqb n m then 0%nat else Datatypes.S (index_of n r) end.
 Definition first_occ (l : list nat) : list nat := map (fun n => index_of n l) l.
 (* modify() returned [obs]: same nesting, same operators, same sharing of objects, same durations *)
-Definition modify_ok (l : list tree) (P : mparams) (obs : list tree) : bool :=
-  let m := modify_model l P in
+Definition modify_ok (l : list tree) (P : mparams) (kw : bool) (obs : list tree)
+    (times times_mod : list Qc) : bool :=
+  let m := modify_model l P kw in
   all2 tree_eqb m obs
   && list_eq_nat (first_occ (map item_id (flat_seq m))) (first_occ (map item_id (flat_seq obs)))
-  && qceqb (get_adc_times m) (get_adc_times l).
+  && qceqb (get_adc_times l) times && qceqb (get_adc_times m) times_mod.
+(* a MultiOperator passed to modify(): the result is one MultiOperator of the flattened members *)
+Definition modify_ok_multi (l : list tree) (P : mparams) (obs : list item) (times times_mod : list Qc) : bool :=
+  let m := flat_seq (modify_model l P true) in
+  all2 item_eqb m obs
+  && list_eq_nat (first_occ (map item_id m)) (first_occ (map item_id obs))
+  && qceqb (get_adc_times l) times && qceqb (adc_times m) times_mod.
 
 End Run.
 
